@@ -90,7 +90,25 @@ def configs():
                         "--rename", "{{id}} {{adapter_name}} {{comment}}", "-o", "{d}/out.fq"])
     add("pair-adapters", ["--pair-adapters", "-a", f"a1={A1}", "-A", f"b1={A2}", "-a", "a2=GGTTGG", "-A", "b2=ACGT",
                           "--discard-untrimmed", "-o", "{d}/o1.fq", "-p", "{d}/o2.fq"], layout="paired")
+    # inputs on which a read's result would change if anything learnt from earlier reads survived inside a worker: N inside the
+    # region looked up in the adapter index followed by the same region without N, and reads on which two adapters tie
+    add("history-index", ["-e", "0.15", "-g", "bc1=^ACGTACGT", "-g", "bc2=^TTGGCCAA", "--info-file", "{d}/info.tsv", "-o", "{d}/out.fq"],
+        reads="hist-index")
+    add("history-ties", ["-a", "first=ACGTACGTAA", "-a", "second=ACGTACGTCC", "--info-file", "{d}/info.tsv", "-o", "{d}/d-{{name}}.fq"],
+        reads="hist-ties")
     return C
+
+
+def reads_hist_index():
+    seqs = ["ACGTACGTTTGACCAGT", "NCGTACGTCATCATCAT", "ACGTACGTGGATCCAAG", "ACGTACNTTTGACCAGT", "NCGTNCATCATGGACTA", "ACGTACGTACGTACGTA",
+            "TTGGCCNATTGACCATT", "TTGGCCAATTGACCATT", "ACGAACGTGGATCCAAG"]
+    return [(f"h{i}", s_, _q(len(s_), i)) for i, s_ in enumerate(seqs)]
+
+
+def reads_hist_ties():
+    seqs = ["TTGACCAGTACGTACGT", "CATCATCATACGTACGTCC", "GGATCCAAGACGTACGT", "TTGACCAGTTACGTACG", "CATGGACTAACGTACGTAA", "TGCATGCAACGTACGT",
+            "TTGACCATTGACGTACGT", "CCATGGACGTACGTC", "GGATCCAAGGACGTACG"]
+    return [(f"t{i}", s_, _q(len(s_), i)) for i, s_ in enumerate(seqs)]
 
 
 def reads_rc():
@@ -108,7 +126,7 @@ def reads_rc():
 
 
 def write_inputs(cfg, wd):
-    r1 = (reads_rc() if cfg.get("reads") == "rc" else reads_single())[: cfg["nreads"]]
+    r1 = {"rc": reads_rc, "hist-index": reads_hist_index, "hist-ties": reads_hist_ties}.get(cfg.get("reads"), reads_single)()[: cfg["nreads"]]
     r2 = reads_r2()[: cfg["nreads"]]
     txt = clih.fastq_text if cfg["fmt"] == "fastq" else clih.fasta_text
     ext = "fq" if cfg["fmt"] == "fastq" else "fa"
@@ -268,6 +286,8 @@ def plan(tier):
         T.append((ix["interleaved-fasta"], 2, 40, None, "D", 1))  # buffer so small that chunks hold single records
         T.append((ix["interleaved"], 2, 40, None, "D", 1))
         T.append((ix["linked-revcomp"], 2, 4, None, "D", 1))
+        T.append((ix["history-index"], 2, 4, None, "D", 1))
+        T.append((ix["history-ties"], 2, 4, None, "D", 1))
         T.append((ix["single"], 2, 3, 1, "D", 1))
         T.append((ix["paired"], 2, 2, 1, "D", 1))
         T.append((ix["single-redirects"], 3, 3, None, "D", 1))
@@ -278,6 +298,8 @@ def plan(tier):
         T.append((ix["interleaved-fasta"], 2, 40, None, "D", 2))
         T.append((ix["interleaved"], 2, 40, None, "D", 2))
         T.append((ix["linked-revcomp"], 3, 5, None, "D", 2))
+        T.append((ix["history-index"], 3, 5, None, "D", 2))
+        T.append((ix["history-ties"], 3, 5, None, "D", 2))
         for n in ("single", "single-redirects", "paired", "demux"):
             T.append((ix[n], 3, 4, None, "D", 2))
             T.append((ix[n], 2, 4, None, "D", 3))
